@@ -334,15 +334,33 @@ def run_one_path(eng, fn, name):
 
 # ----------------------------------------------------------------------------- Model construction intercept
 
+EN_BOOLEANS = {'true': 'TRUE', 'false': 'FALSE'}
+EN_ERRORS = {'ref': '#REF!', 'name': '#NAME?', 'value': '#VALUE!', 'div': '#DIV/0!', 'na': '#N/A', 'num': '#NUM!', 'nimpl': '#N/IMPL!',
+             'spill': '#SPILL!', 'calc': '#CALC!', 'circ': '#CIRC!', 'error': '#ERROR!', 'null': '#NULL!'}
+
+
 def _language_en(eng):
-    """the `en` Language: `code` is concrete (sheet-name generation matches on it), the tables are opaque"""
+    """the `en` Language: code, boolean and error names concrete (harness h_probe_language_en prints the native
+    values and the per-path validation compares them on every run), the function-name table opaque"""
     from .mcore import mkstr
     ld = eng.td.lookup('language::Language')
-    vals = {'name': mkstr('English'), 'code': mkstr('en'), 'booleans': Opaque('language.booleans'),
-            'errors': Opaque('language.errors'), 'functions': Opaque('language.functions')}
-    if ld is None or sorted(ld.fields) != sorted(vals):
+    bd = eng.td.lookup('language::Booleans')
+    ed = eng.td.lookup('language::Errors')
+    if ld is None or bd is None or ed is None or sorted(bd.fields) != sorted(EN_BOOLEANS) or sorted(ed.fields) != sorted(EN_ERRORS):
+        raise Unsupported('language::{Language,Booleans,Errors} have fields this intercept does not know')
+    vals = {'name': mkstr('English'), 'code': mkstr('en'),
+            'booleans': Agg([mkstr(EN_BOOLEANS[f]) for f in bd.fields], bd.path),
+            'errors': Agg([mkstr(EN_ERRORS[f]) for f in ed.fields], ed.path),
+            'functions': Opaque('language.functions')}
+    if sorted(ld.fields) != sorted(vals):
         raise Unsupported('language::Language has fields this intercept does not know')
+    eng.assumptions.add('Language "en": code/booleans/errors concrete (validated natively by h_probe_language_en), function names opaque')
     return Agg([vals[f] for f in ld.fields], ld.path)
+
+
+@rt('language_en')
+def _(eng, ci, a):
+    return Ref([_language_en(eng)], 0)
 
 
 @rt('model_from_workbook')
